@@ -26,6 +26,7 @@ echo "seed $ID-$K: demo_on_clean=$clean_rc build=$build_rc suite=$suite_rc demo_
 if [ $clean_rc -ne 0 ] || [ $build_rc -ne 0 ] || [ $suite_rc -ne 0 ] || [ $patched_rc -eq 0 ]; then echo "NOT CONFIRMED"; tail -5 /tmp/seed_clean.log /tmp/seed_suite.log /tmp/seed_patched.log; exit 1; fi
 mkdir -p $OUT; cp $SD/patch.diff $OUT/patch.diff; cp $SD/demo_test.go $OUT/demo_test.go
 # run our check against the patched /repo
+if [ -n "$(git -C /repo status --porcelain)" ]; then echo "/repo has uncommitted changes: commit them first"; exit 2; fi
 git -C /repo apply $SD/patch.diff || { echo "patch does not apply to /repo"; exit 2; }
 res=$(cd /verif && timeout 1500 ./check $ID quick 2>&1); check_rc=$?
 git -C /repo checkout -q -- .
